@@ -2,6 +2,7 @@ import KyupyVerif.Props.C14
 import KyupyVerif.Props.C04
 import KyupyVerif.Proofs.SdfWave1
 import KyupyVerif.Proofs.SdfWave2
+import KyupyVerif.Proofs.SdfWave3
 import KyupyVerif.Proofs.SdfWaveDemo
 /-! # C14 ∘ C04/C03 — the timing data path: from an SDF description to WaveSim waveforms
 
@@ -122,6 +123,58 @@ theorem sdf_untabled_lines_zero (pinLine : PinTable) (icLine : IcTable) (df : De
 theorem sdf_delays_nonneg (m : Mode) (pinLine : PinTable) (icLine : IcTable) (B : List RawCell) (h : rawNonneg B = true)
     (d : Nat) (cap : Nat → Nat) : ∀ l ip op, 0 ≤ (sdfCfg pinLine icLine (parse m B) d cap).delay l ip op :=
   sdfDelay_nonneg m pinLine icLine B h d
+
+/-! ### the tables read off the netlist
+
+`netPinLine` / `netIcLine` (Model/SdfWave.lean): the pin table and the fork table as `iopaths` / `interconnects` compute them
+from the circuit — node names, `tlib.pin_index`, `cell.ins[…]`, the fork search — over the canonical dump `Net` that the
+`SimOps` model schedules. For every well-formed netlist the side condition "no line is reached by both loops" is a theorem. -/
+
+/-- **IOPATH, tables of the netlist** (every `Net.wfB` netlist, names, `pin_index`): the value of the entry is the delay WaveSim
+uses on line `l`, and `l` IS the line whose reader is the cell named by the block (not a fork) at the pin position the library
+gives for the entry's input pin -/
+theorem sdf_delays_are_wave_delays_net (net : Net) (hwf : net.wfB = true) (names : Array String) (pinIdx : PinIdx)
+    (B : List RawCell) (c : RawCell) (n : String) (x : RawEntry) (l d : Nat) (ip op : Bool) (cap : Nat → Nat)
+    (hc : c ∈ B) (hn : c.insts.head? = some n) (hne : n ≠ "") (hx : x ∈ c.delays.flatten)
+    (hline : netPinLine net names pinIdx (stripBackslash n) (pinOf (sanitize x).a) = some l)
+    (hip : ip ∈ polsOf (sanitize x).a) (hd : d < 3)
+    (huniq : ∀ c' ∈ B, ∀ n', c'.insts.head? = some n' → ∀ x' ∈ c'.delays.flatten,
+      netPinLine net names pinIdx (stripBackslash n') (pinOf (sanitize x').a) = some l → ip ∈ polsOf (sanitize x').a →
+      norm (sanitize x').r = norm (sanitize x).r ∧ norm (sanitize x').f = norm (sanitize x).f) :
+    (sdfCfg (netPinLine net names pinIdx) (netIcLine net names pinIdx) (parse .merge B) d cap).delay l ip op
+      = (norm (if op then (sanitize x).f else (sanitize x).r)).getD d 0 ∧
+    ∃ i k, names.getD i "" = stripBackslash n ∧ (net.node i).isFork = false ∧
+      pinIdx (net.node i).kind (pinOf (sanitize x).a) = some k ∧ (net.line l).reader = i ∧ (net.line l).rpin = k := by
+  refine ⟨sdf_delays_are_wave_delays _ _ B c n x l d ip op cap hc hn hne hx hline hip hd huniq
+    (net_tables_disjoint hwf names pinIdx hline), ?_⟩
+  obtain ⟨i, k, _, h1, h2, h3, _, h4, h5⟩ := netPinLine_spec hwf hline
+  exact ⟨i, k, h1, h2, h3, h4, h5⟩
+
+/-- **INTERCONNECT, tables of the netlist**: the value of the entry is the delay WaveSim uses on line `l`, whose reader is a fork -/
+theorem sdf_interconnect_delays_are_wave_delays_net (net : Net) (hwf : net.wfB = true) (names : Array String)
+    (pinIdx : PinIdx) (B : List RawCell) (c : RawCell) (x : RawEntry) (l d : Nat) (ip op : Bool) (cap : Nat → Nat)
+    (hc : c ∈ B) (hn : c.insts.head? = none) (hx : x ∈ c.delays.flatten)
+    (hskip : icSkip (norm (sanitize x).r) (norm (sanitize x).f) = false)
+    (hline : netIcLine net names pinIdx (stripBackslash (splitSlash (sanitize x).a).1) (splitSlash (sanitize x).a).2
+                    (stripBackslash (splitSlash (sanitize x).b).1) (splitSlash (sanitize x).b).2 = some l)
+    (hd : d < 3)
+    (huniq : ∀ c' ∈ B, c'.insts.head? = none → ∀ x' ∈ c'.delays.flatten,
+      ∀ w, icWrite (netIcLine net names pinIdx) (sanitize x') = some w → w.line = l →
+      norm (sanitize x').r = norm (sanitize x).r ∧ norm (sanitize x').f = norm (sanitize x).f) :
+    (sdfCfg (netPinLine net names pinIdx) (netIcLine net names pinIdx) (parse .merge B) d cap).delay l ip op
+      = (norm (if op then (sanitize x).f else (sanitize x).r)).getD d 0 ∧
+    (net.node (net.line l).reader).isFork = true :=
+  ⟨sdf_interconnect_delays_are_wave_delays _ _ B c x l d ip op cap hc hn hx hskip hline hd huniq
+    (net_tables_disjoint' hwf names pinIdx hline), (netIcLine_reader_fork hwf hline).2⟩
+
+/-- a line whose reader is a cell pin no IOPATH names, or a fork no INTERCONNECT names, … : every line outside the range of both
+netlist tables has delay 0 — in particular (well-formed netlist) every line from a cell output to its signal fork when that
+fork has fan-out -/
+theorem sdf_untabled_lines_zero_net (net : Net) (names : Array String) (pinIdx : PinIdx) (df : DelayFile) (l d : Nat)
+    (ip op : Bool) (cap : Nat → Nat) (h1 : ∀ c p, netPinLine net names pinIdx c p ≠ some l)
+    (h2 : ∀ c1 p1 c2 p2, netIcLine net names pinIdx c1 p1 c2 p2 ≠ some l) :
+    (sdfCfg (netPinLine net names pinIdx) (netIcLine net names pinIdx) df d cap).delay l ip op = 0 :=
+  sdf_untabled_lines_zero _ _ df l d ip op cap h1 h2
 
 /-! ## (3) the static-timing window with the SDF delays, every circuit -/
 
@@ -352,6 +405,20 @@ example : (sdfCfg demoPins demoIc (parse .merge demoB) 0 demo.cap).delay 0 true 
   sdf_untabled_lines_zero demoPins demoIc _ 0 0 true true demo.cap
     (fun c p h => by have := demoPins_range c p 0 h; omega)
     (fun c1 p1 c2 p2 h => by have := demoIc_range c1 p1 c2 p2 0 h; omega)
+
+/-- the same with the tables READ OFF THE NETLIST (`demo_tables_net`: they are the demo's tables on every name of the file):
+line 7 is the line whose reader is `u2` at pin position `pin_index(NAND2_X1, A1) = 0`; line 6 ends at a fork -/
+example : (sdfCfg (netPinLine demoNet demoNames demoPinIdx) (netIcLine demoNet demoNames demoPinIdx) (parse .merge demoB) 1
+      demo.cap).delay 7 true false = 2500 ∧ (demoNet.line 7).reader = 2 ∧ (demoNet.line 7).rpin = 0 :=
+  ⟨(sdf_delays_are_wave_delays_net demoNet demo_hyps.1 demoNames demoPinIdx demoB (demoB[2]) "u2"
+    ⟨"A1", "ZN", [[some 2000, some 2500, some 3000]]⟩ 7 1 true false demo.cap (by decide +kernel) (by decide +kernel)
+    (by decide +kernel) (by decide +kernel) (by decide +kernel) (by decide +kernel) (by decide) (by decide +kernel)).1,
+   by decide +kernel, by decide +kernel⟩
+example : (sdfCfg (netPinLine demoNet demoNames demoPinIdx) (netIcLine demoNet demoNames demoPinIdx) (parse .merge demoB) 2
+      demo.cap).delay 6 false true = 500 ∧ (demoNet.node (demoNet.line 6).reader).isFork = true :=
+  sdf_interconnect_delays_are_wave_delays_net demoNet demo_hyps.1 demoNames demoPinIdx demoB (demoB[0])
+    ⟨"u1/ZN", "u2/A1", [[some 250, some 375, some 500]]⟩ 6 2 false true demo.cap (by decide +kernel) (by decide +kernel)
+    (by decide +kernel) (by decide +kernel) (by decide +kernel) (by decide) (by decide +kernel)
 
 /-- the delays read from the TEXT are the demo's delay table -/
 theorem demo_text_delay : textDelay demoPins demoIc demoText 0 = some demoDelay :=
